@@ -195,6 +195,13 @@ OPS = [
   ("unbalanced_parenthesis", "*", op_value("Pair", lambda k, v: v.startswith("sum("), lambda v, rng: rng.choice([v[:-1], v + ")", v.replace("(", "((", 1)]))),
   ("less_than_range_marker", "*", op_value("Pair", lambda k, v: v.startswith(">0 "), lambda v, rng: v.replace(">=3.0", "<3.0"))),
   ("range_marker_without_number", "*", op_value("Pair", lambda k, v: v.startswith(">0 "), lambda v, rng: v.replace(">=3.0", ">="))),
+  # a malformed part of a multi-range definition that a later part with the SAME marker and start would "replace": every
+  # part of the definition is still built and checked
+  ("malformed_range_before_same_start", "*", op_value("Pair", IS_PLAIN, lambda v, rng: rng.choice([
+      ">=1.0 as.nosuchform 1 2 >=1.0 " + v, ">1.5 nosuchmod(as.constant 1) >1.5 " + v, ">=2 as.buck 1000.0 0.3 >=2.0 " + v,
+      "as.buck 1000.0 0.3 >0 " + v, ">0 as.buck 1000.0 >0.0 " + v, ">=1 spline(as.constant 1 >2 exp_spline) >=1 " + v]))),
+  ("malformed_range_after_same_start", "*", op_value("Pair", IS_PLAIN, lambda v, rng: rng.choice([
+      ">=1.0 " + v + " >=1.0 as.nosuchform 1 2", ">0 " + v + " >0.0 as.buck 1000.0"]))),
   ("empty_definition", "*", in_any_section(lambda v, rng: "")),
   ("run_together_numerals", "*", in_any_section(lambda v, rng: (lambda t: " ".join(t[:-1] + [t[-1] + rng.choice([".5", ".25.1"]) if "." in t[-1] else t[-1] + ".5.5"]))(v.split()))),
   ("buck4_rmin_below_detach", "*", op_value("Pair", IS_PLAIN, lambda v, rng: "as.buck4 1000.0 0.3 30.0 1.0 0.5 2.0")),
